@@ -88,7 +88,10 @@ def all_files(ns, v, split=None):
     if split is None:
         paths = E.explore(body)
     else:
-        fr = S.Engine(max_paths=100000, timeout=1200).frontier(body, 7)
+        E0 = S.Engine(max_paths=100000, timeout=1200)
+        fr = E0.frontier(body, 7)
+        if E0.stats.get('aborted'):
+            raise RuntimeError('%d paths dropped by an infeasible stub assumption' % E0.stats['aborted'])
         mine = [p for i, p in enumerate(fr) if i % NSPLIT == split]
         paths = E.explore(body, prefixes=mine) if mine else []
     if E.stats.get('aborted'):
